@@ -1,7 +1,183 @@
 package main
 
-import "verif/h/vf"
+import (
+	"bytes"
+	"fmt"
 
-// Part 3 — block identity (needs the node rig; filled in later).
+	"github.com/aergoio/aergo/v2/types"
+
+	"verif/h/rig"
+	"verif/h/vf"
+)
+
+// Part 3 — block identity: a block obtained from the network is stored and referenced only under
+// the digest of its own header; content that does not hash to the announced identifier is
+// discarded without affecting what the node will later accept.
+
+func digestOfHeader(b *types.Block) []byte {
+	c := &types.Block{Header: b.GetHeader()}
+	return c.BlockHash() // Hash field empty -> recomputed from the header
+}
+
+type alteration struct {
+	name string
+	f    func(b *types.Block) bool
+}
+
+func alterations() []alteration {
+	return []alteration{
+		{"header-timestamp-altered-id-kept", func(b *types.Block) bool { b.Header.Timestamp += 7; return true }},
+		{"header-coinbase-altered-id-kept", func(b *types.Block) bool { b.Header.CoinbaseAccount = rig.NewAcct("c18/other", 1).Addr; return true }},
+		{"header-stateroot-altered-id-kept", func(b *types.Block) bool { b.Header.BlocksRootHash = rig.FlipBytes(b.Header.BlocksRootHash); return true }},
+		{"header-confirms-altered-id-kept", func(b *types.Block) bool { b.Header.Confirms += 3; return true }},
+		{"body-tx-dropped-id-kept", func(b *types.Block) bool {
+			if len(b.Body.Txs) == 0 {
+				return false
+			}
+			b.Body.Txs = b.Body.Txs[1:]
+			return true
+		}},
+		{"body-tx-amount-altered-id-kept", func(b *types.Block) bool {
+			if len(b.Body.Txs) == 0 {
+				return false
+			}
+			b.Body.Txs[0].Body.Amount = append([]byte{1}, b.Body.Txs[0].Body.Amount...)
+			return true
+		}},
+		{"body-and-txroot-altered-id-kept", func(b *types.Block) bool {
+			if len(b.Body.Txs) < 2 {
+				return false
+			}
+			b.Body.Txs = b.Body.Txs[:len(b.Body.Txs)-1]
+			b.Header.TxsRootHash = types.CalculateTxsRootHash(b.Body.Txs)
+			return true
+		}},
+		{"id-field-altered-content-kept", func(b *types.Block) bool { b.Hash = rig.FlipBytes(b.Hash); return true }},
+		{"id-of-parent-announced", func(b *types.Block) bool { b.Hash = append([]byte(nil), b.Header.PrevBlockHash...); return true }},
+	}
+}
+
 func runBlockIdentity(c *vf.Ctx) {
+	nscen := c.Pick(3, 12)
+	for si := 0; si < nscen; si++ {
+		blockIdentityScenario(c, si)
+	}
+}
+
+func blockIdentityScenario(c *vf.Ctx, si int) {
+	name := fmt.Sprintf("bid%d", si)
+	w := rig.NewWorld(name, c.Scratch(), rig.WorldOpts{Public: true, NAccts: 8, Mempool: "recorder"})
+	defer w.CloseAll()
+	r := c.Rand("blockid/" + name)
+	builder, _, err := w.Node("builder", nil)
+	if err != nil {
+		c.Inconclusive("blockid: start builder: " + err.Error())
+		return
+	}
+	nut, _, err := w.Node("nut", nil)
+	if err != nil {
+		c.Inconclusive("blockid: start nut: " + err.Error())
+		return
+	}
+	g := rig.NewGen(w, r)
+	g.Kinds = []string{"xfer", "xfer", "xfer-new", "xfer-zero", "name"}
+	alts := alterations()
+	fail := func(key, msg string, cs interface{}) {
+		c.Violation("blockid/"+key, msg, map[string]interface{}{"BlockID": cs})
+	}
+	for no := uint64(1); no <= uint64(c.Pick(6, 12)); no++ {
+		st, err := rig.ProduceNext(builder, g, no, 3+r.Intn(4), nil)
+		if err != nil || st.Bad() != "" {
+			c.Inconclusive(fmt.Sprintf("blockid: builder failed: %v %s", err, st.Bad()))
+			return
+		}
+		genuine := rig.DecBlock(st.Rsp.Block)
+		// deliver up to three altered copies first (the genuine one arrives afterwards)
+		perm := r.Perm(len(alts))
+		delivered := 0
+		for _, ai := range perm {
+			if delivered >= 3 {
+				break
+			}
+			a := alts[ai]
+			cp := rig.CloneBlock(genuine)
+			if !a.f(cp) {
+				continue
+			}
+			delivered++
+			c.Eval(1)
+			res, err := nut.AddBlock(rig.EncBlock(cp))
+			cd := map[string]interface{}{"scenario": name, "height": no, "alteration": a.name, "result": res}
+			if err != nil {
+				fail("node-died", fmt.Sprintf("%s height %d %s: %v", name, no, a.name, err), cd)
+				return
+			}
+			c.Count("blockid_altered/"+a.name+"/"+map[bool]string{true: "accepted", false: "refused"}[res == ""], 1)
+			// nothing may be stored or referenced under an identifier that is not the digest of the stored header
+			if bad := misfiled(nut); bad != "" {
+				fail("stored-under-foreign-id/"+a.name, fmt.Sprintf("%s height %d after altered copy %q (%s): %s", name, no, a.name, res, bad), cd)
+				return
+			}
+			if bb, _ := nut.Best(); bb != nil && bb.No == no && !bytes.Equal(bb.Hash, digestOfBest(nut)) {
+				fail("best-id-not-digest/"+a.name, fmt.Sprintf("%s height %d: best block is announced as %x but its header hashes to %x", name, no, bb.Hash, digestOfBest(nut)), cd)
+				return
+			}
+			c.Nontrivial(fmt.Sprintf("%s|%d|%s", name, no, a.name))
+		}
+		// the genuine block must still be accepted and become best
+		res, err := nut.AddBlock(st.Rsp.Block)
+		cd := map[string]interface{}{"scenario": name, "height": no, "result": res}
+		if err != nil {
+			fail("node-died", fmt.Sprintf("%s height %d genuine: %v", name, no, err), cd)
+			return
+		}
+		bb, _ := nut.Best()
+		if res != "" || !bytes.Equal(bb.Hash, st.Rsp.Hash) {
+			fail("genuine-block-refused-after-altered-copy", fmt.Sprintf("%s height %d: after %d relay-altered copies the genuine block %x is refused (%q); best is height %d %x", name, no, delivered, st.Rsp.Hash[:8], res, bb.No, bb.Hash[:8]), cd)
+			return
+		}
+		if bad := misfiled(nut); bad != "" {
+			fail("stored-under-foreign-id/after-genuine", fmt.Sprintf("%s height %d: %s", name, no, bad), cd)
+			return
+		}
+		c.Count("blockid_genuine_accepted", 1)
+	}
+	c.Sample(map[string]interface{}{"part": "block-identity", "scenario": name})
+}
+
+func digestOfBest(n *rig.Client) []byte {
+	bi, err := n.Best()
+	if err != nil {
+		return nil
+	}
+	bb, err := n.GetBlock(bi.Hash)
+	if err != nil {
+		return nil
+	}
+	return digestOfHeader(rig.DecBlock(bb))
+}
+
+// misfiled scans the raw chain store: every 32-byte key whose value decodes as a block must be the
+// digest of that block's header, and every height-index entry must point to such a key.
+func misfiled(n *rig.Client) string {
+	scan, err := n.Scan("chain")
+	if err != nil {
+		return ""
+	}
+	for k, v := range scan {
+		if len(k) != 32 {
+			continue
+		}
+		b := rig.DecBlock(v)
+		if b == nil || b.GetHeader() == nil || len(b.GetHeader().GetPrevBlockHash()) == 0 && b.GetHeader().GetBlockNo() != 0 {
+			continue // a tx index entry or another 32-byte keyed record
+		}
+		if b.GetHeader().GetChainID() == nil {
+			continue
+		}
+		if d := digestOfHeader(b); !bytes.Equal(d, []byte(k)) {
+			return fmt.Sprintf("block stored under key %x but its header hashes to %x (height %d)", []byte(k), d, b.GetHeader().GetBlockNo())
+		}
+	}
+	return ""
 }
